@@ -191,6 +191,9 @@ theorem decodeVec_eq : ∀ t : List UInt8, decodeVec (t.map (·.toNat)) = strict
       simp only [ne]
       cases strictVals r <;> simp
 
+/-- bridge: `decode()` copies 64-bit element 2 of the packed vector to `out + 16` (either configuration) -/
+theorem decHi_eq : decHiElem = 2 ∧ decHiOff = 16 := by decide
+
 /-- `decode`: 32 characters → 24 bytes, exactly the strict per-quantum formulas -/
 theorem decode32_eq (t : List UInt8) (hl : t.length = 32) :
     decode32 (t.map (·.toNat)) = (strictVals t).map quadBytes := by
@@ -200,7 +203,7 @@ theorem decode32_eq (t : List UInt8) (hl : t.length = 32) :
   | none => rfl
   | some vs =>
     obtain ⟨h1, h2⟩ := strictVals_lt t vs h
-    simp only [Option.map_some]
+    simp only [Option.map_some, decHi_eq.1, decHi_eq.2, List.take_take, Nat.min_self]
     rw [packVec_eq vs (by rw [h2, hl]) h1]
 
 end AwsVerif.Proofs.C05
